@@ -64,6 +64,7 @@ PathApis(fmt) ==
 AllCutApis(fmt) == ReaderApis(fmt) \cup (IF fmt = "cimg" THEN {"colmap.LoadImageData"} ELSE {})
 
 \* ------------------------------------------------------------ denotation --
+\* a point cloud of n points; which attributes an EMPTY cloud lists is not part of the property
 MeshIsCloud(v, n) == v.topo = "point" /\ v.n = n /\ v.idx = Iota(n)
 
 JPoints(f, v) ==
@@ -77,7 +78,7 @@ JPoints(f, v) ==
 
 JPointMesh(f, v) ==
     LET n == Len(f.pts) IN
-    IF ~MeshIsCloud(v, n) \/ v.attrs # <<"Color/3", "Position/3", "error/1", "id/1", "track count/1">>
+    IF ~MeshIsCloud(v, n) \/ (n > 0 /\ v.attrs # <<"Color/3", "Position/3", "error/1", "id/1", "track count/1">>)
        \/ Len(v.pos) # n \/ Len(v.col) # n \/ Len(v.err) # n \/ Len(v.id) # n \/ Len(v.ntr) # n
     THEN {"X05.PtsMesh"}
     ELSE Need("X05.PtsPos", \A i \in 1..n : v.pos[i] = f.pts[i].p)
@@ -97,7 +98,7 @@ JImages(f, v) ==
 
 JImageMesh(f, v) ==
     LET n == Len(f.imgs)  d == DenoteImages(f) IN
-    IF ~MeshIsCloud(v, n) \/ v.attrs # <<"Position/3", "Rotation/4", "camera id/1", "id/1", "point count/1">>
+    IF ~MeshIsCloud(v, n) \/ (n > 0 /\ v.attrs # <<"Position/3", "Rotation/4", "camera id/1", "id/1", "point count/1">>)
        \/ Len(v.pos) # n \/ Len(v.rot) # n \/ Len(v.id) # n \/ Len(v.cam) # n \/ Len(v.np) # n
     THEN {"X05.ImgMesh"}
     ELSE Need("X05.ImgTrans", \A i \in 1..n : v.pos[i] = d[i].t)
@@ -180,7 +181,7 @@ JNode(f, i, v) ==
     LET a == f.meta.attrs  n == Len(f.ons[i].pts)  hasCol == ColIdx(a) # 0 IN
     Need("X05.NodeRead", v.n = ONodeSize(f, i))
     \cup Need("X05.NodeMesh", /\ MeshIsCloud(v.mesh, n)
-                              /\ v.mesh.attrs = (IF hasCol THEN <<"Color/3", "Position/3">> ELSE <<"Position/3">>))
+                              /\ (n > 0 => v.mesh.attrs = (IF hasCol THEN <<"Color/3", "Position/3">> ELSE <<"Position/3">>)))
     \cup Need("X05.NodePos", v.mesh.pos = NodePos(f, i, TRUE) /\ v.apos = NodePos(f, i, FALSE))
     \cup Need("X05.NodeColor", IF hasCol THEN v.mesh.col = NodeCol(f, i) /\ v.acol = NodeCol(f, i)
                                ELSE v.mesh.col = <<>> /\ v.acol = Rep(n, Rep(3, U(0))))
